@@ -180,6 +180,10 @@ def anonymize_files(
             )
 
         for root, dirs, files in os.walk(input_path):
+            # Visit directories and files in a fixed order so that the numbering of
+            # replaced secrets does not depend on the file system's listing order
+            dirs.sort()
+            files = sorted(files)
             rel_root = os.path.relpath(root, input_path)
             file_list.extend(
                 [
